@@ -122,7 +122,11 @@ def run(rng, tier, res=None, want=("prim", "fit", "semi")):
         if len(set(lab)) < 2:
             nq = 0      # single class: no prototypes; predict raises IndexError (outside every property)
             res.hit("single_class")
-        if semi or extra == 0 or rng.random() < 0.3:
+        if semi and extra > 0 and rng.random() < 0.6:
+            # labeled rows anywhere in the matrix except the positions nLab..n-1, which the library assigns to the unlabeled samples
+            pool = [t for t in range(U) if not (nLab <= t < n)]
+            I = rng.sample(pool, nLab); idx = list(I) + list(range(nLab, n))
+        elif semi or extra == 0 or rng.random() < 0.3:
             I = None; idx = list(range(n))
         else:
             I = rng.sample(range(U), nLab); idx = list(I)
@@ -166,7 +170,7 @@ def run(rng, tier, res=None, want=("prim", "fit", "semi")):
                 o.pre_distances = M
                 Mbytes = M.tobytes()
                 if semi:
-                    o.fit(X, Y, np.zeros((nU, 1)), I_train=None)
+                    o.fit(X, Y, np.zeros((nU, 1)), I_train=(np.array(I) if I is not None else None))
                 else:
                     o.fit(X, Y, I_train=(np.array(I) if I is not None else None))
         except Exception as ex:
@@ -174,6 +178,22 @@ def run(rng, tier, res=None, want=("prim", "fit", "semi")):
                 viol("C15" if semi else "C01", [f"fit raised {type(ex).__name__}: {ex}"], {"stream": "fit", "labels": lab, "kind": kind})
             continue
         fobs = forest_obs(o.subgraph, n)
+        if semi and nU == 0 and not feature_mode:
+            # C15: with an empty unlabeled set the result is identical to supervised training on the labeled set
+            try:
+                sup = SupervisedOPF(distance="euclidean"); sup.pre_computed_distance = True; sup.pre_distances = M
+                sup.fit(X, Y, I_train=(np.array(I) if I is not None else None))
+                fs = forest_obs(sup.subgraph, n)
+                sa_, sb_ = fs.split(" | "), fobs.split(" | ")
+                # the true-label field is excluded: semi-supervised training overwrites it with the propagated label
+                # (mirrored by the model, see DESIGN §4 observations); the forest itself must be identical
+                if [u for k_, u in enumerate(sa_) if k_ != 4] != [v for k_, v in enumerate(sb_) if k_ != 4]:
+                    names_ = ["prototypes", "costs", "predecessors", "assigned labels", "true-label field", "order"]
+                    viol("C15", [f"empty unlabeled set: semi-supervised differs from supervised training in "
+                                 f"{[nm for nm, u, v in zip(names_, sa_, sb_) if u != v]}"], {"stream": "semi", "labels": lab, "M": M.tolist(), "I": I})
+                res.hit("c15_empty_vs_supervised")
+            except Exception as ex:
+                res.notes.append(f"c15 empty-vs-supervised skipped: {type(ex).__name__}")
         nd = o.subgraph.nodes
         proto = [nd[i].status == 1 for i in range(n)]
         cost = [nd[i].cost for i in range(n)]
